@@ -93,6 +93,8 @@ def ops_of(fx, fn, seen=None):
                     n = c.get('rfn') or c.get('fn') or c.get('closure')
                     if n in fx.fns:
                         out |= ops_of(fx, n, seen)
+                    elif n.startswith('core::cmp::Ordering::is_'):
+                        out.add('ordtest:' + n.split('::')[-1])    # the test handed to a helper as a function pointer
                     else:
                         out.add('fn:' + n)
                 else:
@@ -110,12 +112,16 @@ def ops_of(fx, fn, seen=None):
                 out |= ops_of(fx, c, seen)
             elif _numeric_callee(c):
                 out.add('call:' + c)
+            elif c.startswith('core::cmp::Ordering::is_'):
+                out.add('ordtest:' + c.split('::')[-1])
             for a in t['args']:
                 cc = a.get('c')
                 if cc and ('fn' in cc or 'closure' in cc):
                     n = cc.get('rfn') or cc.get('fn') or cc.get('closure')
                     if n in fx.fns:
                         out |= ops_of(fx, n, seen)
+                    elif n.startswith('core::cmp::Ordering::is_'):
+                        out.add('ordtest:' + n.split('::')[-1])    # the test handed to a helper as a function value
                     else:
                         out.add('fn:' + n)
     return out
@@ -162,7 +168,8 @@ def run(rep, facts, tier):
             rep.add('C09.R4', 'C09.R4:%s' % name, False, 'word `%s` is not in the reviewed operator table (new arithmetic word?)' % name, target, at)
         else:
             norm = lambda S: {o.split(':', 1)[1] if o.startswith(('fn:', 'call:')) else o for o in S}
-            extra, missing = norm(ops) - norm(want), norm(want) - norm(ops)
+            sig = {o for o in ops if not o.startswith('ordtest:')}
+            extra, missing = norm(sig) - norm(want), norm(want) - norm(sig)
             rep.add('C09.R4', 'C09.R4:%s' % name, not extra and not missing,
                     'operator signature matches: %s' % sorted(short(o) for o in ops) if not extra and not missing else
                     'word `%s` has operator signature %s; reviewed table says %s (unexpected %s, missing %s)' %
@@ -170,7 +177,7 @@ def run(rep, facts, tier):
                     target, at)
         # comparison words: which Ordering test
         if name in ORDER_TEST and f is not None:
-            tests = {(callee_of(t) or '').split('::')[-1] for _, t in f.calls() if (callee_of(t) or '').startswith('core::cmp::Ordering::')}
+            tests = {o.split(':', 1)[1] for o in ops if o.startswith('ordtest:')}
             ok = tests == {ORDER_TEST[name]}
             rep.add('C09.R4', 'C09.R4:%s:ordering-test' % name, ok, 'Ordering::%s' % ORDER_TEST[name] if ok else
                     'word `%s` tests the ordering with %s, expected %s' % (name, sorted(tests), ORDER_TEST[name]), target, at)
@@ -319,4 +326,4 @@ def check_type_errors(rep, fx):
                 rep.add('C09.R3', 'C09.R3:%s:%s-on-popped' % (fn, c.split('::')[-1]), ok,
                         'typed accessor applied to a popped operand' if ok else
                         '%s applies %s to %s' % (short(fn), short(c), [short(s_) for s_ in src]), fn, t.get('at'), nontrivial=False)
-    rep.floor('C09.R3 type-error constructions', n, 8)
+    rep.floor('C09.R3 type-error constructions', n, 5)
